@@ -130,6 +130,25 @@ def justified (strict : Bool) (E : Env) (rx : RxTable) (cal : CalTable) (confs :
 def step (d : D) (op impl : String) : D × DrvOut :=
   match words op with
   | ["reset"] => (d, { model := "ok" })
+  | ["reload", _nowS, d0S, dsS] =>
+    -- cam1's retention in the initial configuration and in the configurations delivered during the first pass
+    match d0S.toNat?, (if dsS == "-" then some [] else (dsS.splitOn ",").mapM String.toNat?) with
+    | some d0, some ds =>
+      let mk (d : Nat) : List Conf := [{ key := strBytes "cam1", isRegexp := false, fmt := strBytes "recordings/%path/%s", deleteAfter := d }]
+      let cur := inForce (mk d0) (ds.map mk)
+      let curDel := (cur.head?.map (·.deleteAfter)).getD 0
+      -- the segment is one hour old: pass 1 (initial configuration) or the pass after the deliveries removes it
+      let gone := d0 != 0 || curDel != 0
+      let model := if gone then "cam1=deleted" else "cam1=kept"
+      let spec :=
+        if impl == "cam1=deleted" && !gone then
+          "FAIL a pass used a stale configuration: deleted a segment of a path whose current recordDeleteAfter is 0"
+        else if impl == "cam1=kept" && gone then
+          "FAIL a pass used a stale configuration: an expired segment was not deleted"
+        else if impl == "cam1=deleted" || impl == "cam1=kept" then "ok"
+        else "FAIL the cleaner did not complete its passes"
+      (d, { model, spec })
+    | _, _ => (d, { model := "bad-op" })
   | ["run", cwdH, nowS, confsS, filesS, "|", rxS, "|", calS] =>
     match Hex.decode cwdH, nowS.toInt?, parseConfs confsS, parseHexList filesS with
     | some cwd, some now, some confs, some rels =>
